@@ -975,7 +975,7 @@ func runC27(r *core.Run) {
 	// stateful: valid multi-statement programs that reuse a small set of accounts
 	// across different assets (state carried by the machine between statements)
 	c27StatefulFloors(r)
-	r.ForEach("stateful", r.N(20_000, 400_000), 0, func(c *core.Case) {
+	r.ForEach("stateful", r.N(20_000, 200_000), 0, func(c *core.Case) {
 		sp := c27GenStateful(c.Rng)
 		in := c27Input{text: sp.text, origin: "generated:stateful"}
 		guarded(c, in, func() { c27StatefulBody(c, r, in, sp) })
@@ -1657,11 +1657,11 @@ func c27SCombos(p *c27SProgram, tracked map[string]map[string]bool) map[string]b
 // c27StatefulFloors: a run in which the generator did not produce (and the
 // machine did not execute) the cross-statement / cross-asset situations is
 // inconclusive, not silent. Quick-tier floors are about a third of what 20 000
-// programs yield (seeds 1-5); the thorough tier runs 20 times as many.
+// programs yield (seeds 1-5); the thorough tier runs 10 times as many.
 func c27StatefulFloors(r *core.Run) {
-	r.Floor("stateful_compile_ok", int64(r.N(15_000, 300_000)))
-	r.Floor("stateful_programs_reaching_Execute", int64(r.N(12_000, 240_000)))
-	r.Floor("stateful_programs_Execute_ok", int64(r.N(6_000, 120_000)))
+	r.Floor("stateful_compile_ok", int64(r.N(15_000, 150_000)))
+	r.Floor("stateful_programs_reaching_Execute", int64(r.N(12_000, 120_000)))
+	r.Floor("stateful_programs_Execute_ok", int64(r.N(6_000, 60_000)))
 	for k, min := range map[string]int{
 		"same_account_with_several_assets+unbounded_overdraft+kept":                       3000,
 		"account_tracked_for_several_assets":                                              4000,
@@ -1673,10 +1673,10 @@ func c27StatefulFloors(r *core.Run) {
 		"save_on_account_tracked_for_another_asset_only":                                  1000,
 		"save_on_a_tracked_pair":                                                          1500,
 	} {
-		r.Floor("stateful_reached_Execute_with:"+k, int64(r.N(min, min*20)))
+		r.Floor("stateful_reached_Execute_with:"+k, int64(r.N(min, min*10)))
 	}
-	r.Floor("stateful_Execute_ok_with:unbounded_overdraft_on_account_tracked_for_another_asset_only+kept_in_that_send", int64(r.N(350, 7000)))
-	r.Floor("stateful_Execute_ok_with:same_account_with_several_assets+unbounded_overdraft+kept", int64(r.N(1500, 30_000)))
+	r.Floor("stateful_Execute_ok_with:unbounded_overdraft_on_account_tracked_for_another_asset_only+kept_in_that_send", int64(r.N(350, 3500)))
+	r.Floor("stateful_Execute_ok_with:same_account_with_several_assets+unbounded_overdraft+kept", int64(r.N(1500, 15_000)))
 	r.Floor("stateful_features", 22)
 }
 
